@@ -46,6 +46,107 @@ def cases(rng, tier):
     return cs
 
 
+# ---------------------------------------------------------------- system level
+import engine
+import sysprop as S
+import sysrun
+
+OPENM = S.frame(S.OPEN, S.open_body()).hex()
+KAM = S.frame(S.KEEPALIVE).hex()
+UPD = S.frame(S.UPDATE, bytes(4)).hex()
+
+
+class Admit:
+    no_model = True
+
+    def __init__(self, sid, tag, steps, silent, served=(), alive=None, **kw):
+        self.sid, self.tag, self.steps, self.silent, self.served, self.alive, self.kw = sid, tag, steps, silent, served, alive, kw
+        self.remote_id = 0x0A000002
+
+    def scenario(self):
+        sc = {"id": self.sid, "local_as": 65001, "remote_as": 65000, "local_id": 0x0A000001, "hold": 90, "passive": True,
+              "idle_hold_ms": 3000, "connect_retry_ms": 3000, "caps": [], "on_open": None, "handler": [], "est_writes": [],
+              "steps": self.steps}
+        sc.update(self.kw)
+        return sc
+
+    def model_case(self):
+        return None
+
+    def check(self, r):
+        bad = []
+        conns = {c["name"]: c for c in r["conns"]}
+        t_close = min([a["at"] for a in r["api"] if a["name"] == "final-close"] + [10 ** 9])
+        for name in self.silent:
+            c = conns.get(name)
+            if c is None or c.get("refused"):
+                continue        # refused at TCP level is silent too
+            if c["nbytes"] or (c["msgs"] or []):
+                bad.append("connection %s must be closed without a single byte, received %d bytes" % (name, c["nbytes"]))
+            if not c["eof"] or c.get("read_err") == "closed-locally":
+                bad.append("connection %s (to be refused) was not closed by corebgp" % name)
+        for name in self.served:
+            c = conns.get(name)
+            if c is None or not any(m["t"] == 1 for m in (c["msgs"] or [])):
+                bad.append("connection %s from the configured peer was not served (no OPEN)" % name)
+        if self.alive:
+            c = conns[self.alive]
+            if (c["eof"] and c["eof_at"] < t_close - 5) or any(m["t"] == 3 and m["at"] < t_close - 5 for m in c["msgs"] or []):
+                bad.append("existing session on %s was disturbed by a refused connection" % self.alive)
+            ups = [cb for cb in r["cbs"] if cb["name"] == "Handler" and cb["ph"] == "enter"]
+            if len(ups) != 1:
+                bad.append("existing session on %s: UPDATE after the refused connection not delivered (%d handler calls)" % (self.alive, len(ups)))
+        n_open_cb = sum(1 for cb in r["cbs"] if cb["name"] == "GetCapabilities" and cb["ph"] == "enter")
+        n_served = sum(1 for c in r["conns"] if any(m["t"] == 1 for m in (c["msgs"] or [])))
+        if n_open_cb != n_served:
+            bad.append("plugin GetCapabilities called %d times for %d served connections" % (n_open_cb, n_served))
+        return bad
+
+
+def admit_items(rng, tier):
+    out = []
+    sid = 0
+    hs = [["recv", "c1", 1, 1000], ["send", "c1", OPENM, 0], ["send", "c1", KAM, 0], ["recv", "c1", 2, 1000], ["sleep", 20]]
+    tail = [["send", "c1", UPD, 0], ["sleep", 40]]
+    # unconfigured sources, with an established session that must stay untouched
+    for src in ("127.9.9.9", "127.200.1.1"):
+        out.append(Admit(sid, "unconfigured-source", [["dial", "c1"]] + hs + [["dial_to", "x1", "127.0.0.1", src], ["recv_eof", "x1", 500]] + tail,
+                         silent=["x1"], served=["c1"], alive="c1"))
+        sid += 1
+    # wrong destination for a peer with a configured local address (wildcard listener)
+    out.append(Admit(sid, "wrong-destination", [["dial_to", "x1", "127.0.0.5", ""], ["recv_eof", "x1", 500], ["dial", "c1"]] + hs + tail,
+                     silent=["x1"], served=["c1"], alive="c1", wildcard=True, local_addr=True))
+    sid += 1
+    out.append(Admit(sid, "right-destination", [["dial_to", "c1", "127.0.0.1", ""]] + hs + tail,
+                     silent=[], served=["c1"], alive="c1", wildcard=True, local_addr=True))
+    sid += 1
+    # busy: a second inbound connection while one is in progress / Established
+    out.append(Admit(sid, "busy.inbound-in-progress", [["dial", "c1"], ["recv", "c1", 1, 1000], ["dial", "x1"], ["recv_eof", "x1", 500]] + hs[1:] + tail,
+                     silent=["x1"], served=["c1"], alive="c1"))
+    sid += 1
+    out.append(Admit(sid, "busy.established", [["dial", "c1"]] + hs + [["dial", "x1"], ["recv_eof", "x1", 500], ["dial", "x2"], ["recv_eof", "x2", 500]] + tail,
+                     silent=["x1", "x2"], served=["c1"], alive="c1"))
+    sid += 1
+    # held down after a protocol error at each state
+    for state, pre in (("openSent", []), ("openConfirm", [["send", "c1", OPENM, 0]]), ("established", [["send", "c1", OPENM, 0], ["send", "c1", KAM, 0]])):
+        for bad in (S.frame(9).hex(), S.frame(2, b"", length=5).hex(), S.frame(S.NOTIF, S.notif_body(2, 2)).hex()):
+            out.append(Admit(sid, "held-down." + state,
+                             [["dial", "c1"], ["recv", "c1", 1, 1000]] + pre + [["sleep", 10], ["send", "c1", bad, 0], ["recv_eof", "c1", 1000],
+                              ["sleep", 60], ["dial", "x1"], ["recv_eof", "x1", 500], ["sleep", 200], ["dial", "x2"], ["recv_eof", "x2", 500]],
+                             silent=["x1", "x2"], served=["c1"]))
+            sid += 1
+    return out
+
+
+def sys_part(tier, rng, rep, replay):
+    cov = sysrun.run_convs(PID, admit_items(rng, tier), rep, extra_check=lambda c, e, o, r: c.check(r), par=24)
+    cov["rule"] = ("live server: connections from unconfigured loopback sources, to a destination other than the peer's local "
+                   "address (wildcard listener), while an inbound connection is in progress, while Established, and while held "
+                   "down after a protocol error at each state: each must be closed without a byte or a callback and an existing "
+                   "session must keep delivering UPDATEs")
+    return cov
+
+
 def main(tier, seed, replay=None):
     import sys
-    return fnprop.run(sys.modules[__name__], tier, seed, replay)
+    return engine.run_property(sys.modules[__name__], tier, seed, replay)
